@@ -105,11 +105,21 @@ def shipped_file_checks(ctx):
         if spec is None:
             ctx.violation('shipped', 'gym_id.not_registered', f'{env_id} is not registered', 'files', {'id': env_id})
             continue
-        fac = spec.kwargs.get('factory')
-        path = fac.args[0] if fac is not None and getattr(fac, 'args', None) else None
-        if path is None or os.path.basename(path) != fname or os.path.realpath(os.path.dirname(path)) != os.path.realpath(pdir):
-            ctx.violation('shipped', 'gym_id.wrong_file', f'{env_id} is registered with {path}, expected registered_envs/{fname}',
-                          'files', {'id': env_id})
+        # which file the id leads to is decided by what gets built (how the registration stores it is the library's business):
+        # the environment made from the id has the spaces of, and behaves like, the one built from the packaged file
+        ok_m, made = call_real(gym.make, env_id, disable_env_checker=True)
+        ok_f, built = call_real(factory_env_from_yaml, os.path.join(pdir, fname))
+        if not ok_m or not ok_f:
+            bad = made if not ok_m else built
+            ctx.violation('shipped', 'gym_id.does_not_build', f'{env_id} / {fname}: {describe_exc(bad)}', 'files', {'id': env_id})
+            continue
+        inner = made.unwrapped.outer_env.inner_env
+        probe = [3, 1, 0, 5, 2, 0, 0, 4, 6, 7, 0, 1, 0, 2, 0]
+        ok_a, ta = call_real(trace_of, inner, 11, probe)
+        ok_b, tb = call_real(trace_of, built, 11, probe)
+        if spaces_of(inner) != spaces_of(built) or ok_a != ok_b or (ok_a and ta != tb):
+            ctx.violation('shipped', 'gym_id.wrong_file', f'{env_id} does not build the environment described by registered_envs/{fname} '
+                          f'(spaces equal: {spaces_of(inner) == spaces_of(built)})', 'files', {'id': env_id})
         # the id's name and the file must describe the same family/size, e.g. GV-Keydoor-5x5-v0 <-> gv_keydoor.5x5.yaml
         fam = ''.join(ch for ch in env_id[3:-3].lower() if ch.isalnum())
         if fam != ''.join(ch for ch in fname[3:-5].lower() if ch.isalnum()):
